@@ -2,13 +2,25 @@
 (***************************************************************************)
 (* Property C09 over the operation-level observables of a concurrent       *)
 (* execution of the sliding window: a set `ops' of records                 *)
-(*   [kind : "add"|"read", ts, n, inv, ret, retNow, val, over]             *)
-(* ts = time stamp of the operation (the clock when it was invoked), n =   *)
+(*   [kind : "add"|"read", ev, ts, n, inv, ret, retNow, val, over]         *)
+(* ev = the statistic the operation records into / reads (see below), ts = *)
+(* time stamp of the operation (the clock when it was invoked), n =        *)
 (* amount of an add, inv / ret = positions of invocation and return in the *)
 (* total order of the execution (ret = 0: still pending), retNow = clock   *)
 (* at return, val = value returned by a read, over = the add overlapped a  *)
 (* roll-over of its own slot performed by another goroutine (for a read:   *)
 (* it overlapped a roll-over of any slot by another goroutine).            *)
+(*                                                                         *)
+(* Every clause of the property is PER STATISTIC of the bucket:            *)
+(*   counters   add.ev = read.ev \in {"pass","block","complete","error",   *)
+(*              "rt"}: the read returns the SUM over its window;           *)
+(*   "minrt"    read of the smallest amount recorded by the "rt" adds of   *)
+(*              its window (AddRt keeps a per-bucket minimum), maxrt when  *)
+(*              there is none;                                             *)
+(*   "maxconc"  read of the largest amount recorded by the "conc" adds     *)
+(*              (UpdateConcurrency) of its window, 0 when there is none.   *)
+(* A roll-over expires the bucket as a whole: whatever statistic a recorder *)
+(* fed, its amount must be invisible to every later window.                *)
 (* Used by WindowConc (model level) and WindowConc_Trace (real executions).*)
 (***************************************************************************)
 EXTENDS Integers, FiniteSets
@@ -34,16 +46,47 @@ Countable(a, r, n, bl) ==
 Adds(ops)  == { o \in ops : o.kind = "add" }
 Reads(ops) == { o \in ops : o.kind = "read" /\ o.ret # 0 }
 
-\* no update is duplicated or invented, nothing expired is visible
-NoInvention(ops, n, bl) ==
-    \A r \in Reads(ops) : r.val <= SumN({ a \in Adds(ops) : Countable(a, r, n, bl) })
+\* ---- statistics -----------------------------------------------------------------------------------------
+ExtKinds == {"minrt", "maxconc"}
+IsExt(r) == r.ev \in ExtKinds
+\* does add a feed the statistic that read r reports?
+Feeds(a, r) == IF r.ev = "minrt" THEN a.ev = "rt"
+               ELSE IF r.ev = "maxconc" THEN a.ev = "conc"
+               ELSE a.ev = r.ev
+Neutral(r, maxrt) == IF r.ev = "minrt" THEN maxrt ELSE 0
+\* the extremum a read of kind r.ev reports for the feeding adds W
+Ext(r, W, maxrt) ==
+    IF r.ev = "minrt"
+    THEN IF \E a \in W : a.n < maxrt THEN CHOOSE v \in { a.n : a \in W } : \A a \in W : v <= a.n ELSE maxrt
+    ELSE IF \E a \in W : a.n > 0 THEN CHOOSE v \in { a.n : a \in W } : \A a \in W : v >= a.n ELSE 0
+\* the min / max trackers are "load, compare, store": exact only for recorders of one bucket that do not overlap each other
+Serial(W, bl) == \A a, b \in W : (a # b /\ Align(a.ts, bl) = Align(b.ts, bl)) => (a.ret < b.inv \/ b.ret < a.inv)
+InWindow(a, r, n, bl) == Align(a.ts, bl) >= Lo(r.ts, n, bl) /\ Align(a.ts, bl) <= Align(r.ts, bl)
+
+\* no update is duplicated or invented, nothing expired is visible - for every statistic:
+\* a sum never exceeds the countable amounts, an extremum is the neutral value or the amount of ONE countable add
+NoInventionOf(r, ops, n, bl, maxrt) ==
+    LET C == { a \in Adds(ops) : Feeds(a, r) /\ Countable(a, r, n, bl) } IN
+    IF IsExt(r) THEN r.val = Neutral(r, maxrt) \/ \E a \in C : a.n = r.val
+    ELSE r.val <= SumN(C)
+NoInvention(ops, n, bl, maxrt) == \A r \in Reads(ops) : NoInventionOf(r, ops, n, bl, maxrt)
 
 \* when no recorder overlapped a foreign roll-over of its own slot, a read that started after every add had
 \* returned (and that did not itself run across a roll-over) reports exactly the recorded totals of its window
+\* (an extremum read takes the clock twice - refresh, then scan - so it is exact only when the clock stood still)
 Clean(ops) == \A a \in Adds(ops) : ~a.over
-ExactWhenNoOverlap(ops, n, bl) ==
+ExactOf(r, ops, n, bl, maxrt) ==
+    LET W == { a \in Adds(ops) : Feeds(a, r) /\ InWindow(a, r, n, bl) } IN
+    IF IsExt(r) THEN (r.retNow = r.ts /\ Serial(W, bl)) => r.val = Ext(r, W, maxrt)
+    ELSE r.val = SumN(W)
+ExactWhenNoOverlap(ops, n, bl, maxrt) ==
     Clean(ops) =>
         \A r \in Reads(ops) :
-            (~r.over /\ \A a \in Adds(ops) : a.ret # 0 /\ a.ret < r.inv)
-            => r.val = SumN({ a \in Adds(ops) : Align(a.ts, bl) >= Lo(r.ts, n, bl) /\ Align(a.ts, bl) <= Align(r.ts, bl) })
+            (~r.over /\ \A a \in Adds(ops) : a.ret # 0 /\ a.ret < r.inv) => ExactOf(r, ops, n, bl, maxrt)
+
+\* the offending reads (for the report of a rejected execution)
+Invented(ops, n, bl, maxrt) == { r \in Reads(ops) : ~NoInventionOf(r, ops, n, bl, maxrt) }
+Inexact(ops, n, bl, maxrt) ==
+    IF ~Clean(ops) THEN {}
+    ELSE { r \in Reads(ops) : (~r.over /\ \A a \in Adds(ops) : a.ret # 0 /\ a.ret < r.inv) /\ ~ExactOf(r, ops, n, bl, maxrt) }
 =============================================================================
